@@ -79,6 +79,9 @@ def shard_fn(shard, nshards, seed, tier, exe, ninputs):
                 cmds = ["X 0xff 32 8 %d x%s" % (sd, s.hex())]
             if rng.random() < 0.15 or kind in ("literal", "listed-witness"):
                 cmds.append("T 0x0f 4 %d x%s" % (sd, s.hex()))
+            if rng.random() < 0.15 and kind != "long" and not s.endswith(b"\0") and len(s) < 200:
+                # the same input with its terminating NUL as part of the text: every other partition then hands its last piece over as a C string (len = -1)
+                cmds.append("X 0x%02x 0 4 %d x%s00" % (rng.choice([0x05, 0x03, 0x11, 0xff]), sd, s.hex()))
         if i in comment_cuts:
             cmds.append("K 0 x%s %s" % (s.hex(), " ".join(str(c) for c in comment_cuts[i])))
         cases.append((cid, cmds))
@@ -117,6 +120,7 @@ def shard_fn(shard, nshards, seed, tier, exe, ninputs):
             sh.count("partitions", f.get("parts", 0))
             sh.count("partitions_vacuous_after_non_continue", f.get("vac", 0))
             sh.count("chunk_boundaries_reached_with_continue", f.get("bcont", 0))
+            sh.count("partitions_whose_last_piece_was_passed_as_a_C_string_with_len_minus_1", f.get("strlenlast", 0))
             sh.count("stream_values", f.get("vals", 0))
             sh.count("inputs." + kind)
             if f.get("live", 0) != 0:
